@@ -84,11 +84,11 @@ def extras(r, k):
         else:
             cmd = r.choice(["msgbox(%s)" % lit(r), "msgbox(%s, MSGBOX_X)" % fmt_call(r), "applymovement(1, moves(walk_up * 2 face_left))", "setvar(VAR_A, 0x1f)", "cmd(global)", "cmd(local)",
                             "goto_if_set(FLAG_A, X%d_L)" % k, "getpricereduction(POKENEWS_LILYCOVE)", "warpmuted(MAP_X, 1, 2)", "cmdD8", "checkmonobedience(VAR_0x8004)", "setmonobedient(VAR_0x8004)", "mossdeepgym1(2)", "faceplayer", "waitstate", "closemessage", "playse(SE_DOOR)", "call(Common_Reward)", "goto(Ext_L)", "random(3)", "special(Foo)", "call(X%d_0)" % k, "two(%s, %s)" % (lit(r), lit(r)), "price(PRICE_OF(ITEM_A, 2), %s)" % lit(r), "mv(OBJ(1, MAP_X), moves(walk_up * 2 face_left))",
-                            "goto_if_unset(FLAG_B, Ext_L)", "setvar(VAR_A, BASE-1)", "addvar(VAR_A, 10-3)", "setvar(VAR_MASK, FLAG_A|~FLAG_B)", "setvar(VAR_MASK, FLAG_A | ~FLAG_B)", "setvar(V, BASE--OFFSET)", "setvar(V, BASE - -OFFSET)", "setvar(V, 1<<4, A>>B, X<-1)", "loadword(0, \"shared\" + 2)", "loadword(0, \"Welcome!\" + 2) msgbox(\"Welcome!\")",
+                            "goto_if_unset(FLAG_B, Ext_L)", "setvar(VAR_A, BASE-1)", "addvar(VAR_A, 10-3)", "setvar(VAR_MASK, FLAG_A|~FLAG_B)", "setvar(VAR_MASK, FLAG_A | ~FLAG_B)", "setvar(V, BASE--OFFSET)", "setvar(V, BASE - -OFFSET)", "setvar(V, 1<<4, A>>B, X<-1)", "debuglog(\"Welcome!\" ascii\"shop: welcome\") msgbox(\"Welcome!\")", "applymovement(2, moves(walk_up * 2) moves(face_down)) applymovement(3, moves(walk_up * 2))", "END", "Return(5)", "loadword(0, \"shared\" + 2)", "loadword(0, \"Welcome!\" + 2) msgbox(\"Welcome!\")",
                             "setobjectxyperm(LOCALID, 7 -3)", "loadbytes(TABLE_BASE -2 -1 4, (ROW) -1)", "setshopkind(mart, 2)", "initshop(mart(SHOP_ID), text, 1)", "multichoice(0, 0, 2_OPTIONS, 1)", "setvar(VAR_A, 0x10_MASK)", "addvar(VAR_A, -3_STEPS, 1_000)", "setvar(VAR_A, K_ONE (K_HEX + 1))", "addvar(K_HEX(3), (VAR_A) K_ONE 5)",
                             'two(ascii"REX", "Is that ok?") msgbox("Is that ok?")', 'sign(braille"ABC", "ABC$", %s)' % lit(r)])
             cond = r.choice(["flag(FLAG_A)", "!defeated(TRAINER_A)", "var(VAR_A) >= value(0x4001)", "random(4) == 2 && flag(FLAG_A) || specialvar(VAR_X, 7) != 0", "checkitem(ITEM_A)", "var(VAR_B) != K_ONE", "var(VAR_A) == TRUE", "var(VAR_B) != false", "!(var(VAR_A) != TRUE) && random(3) == FALSE",
-                            "flag(FLAG_A) && flag(FLAG_K) || flag(FLAG_B) && flag(FLAG_K)", "random(10) == 0 || random(10) == 0", "checkitem(ITEM_A) && flag(FLAG_A)", "getpricereduction(POKENEWS_LILYCOVE) == 1", "flag(FLAG_A) || checkmonobedience(VAR_0x8004)", "var(VAR_A) == 0x8004", "var(VAR_B) >= 16500 || var(VAR_A) < 0x4000", "flag(FLAG_A) && var(VAR_A) != 32770"])
+                            "flag(FLAG_A) && flag(FLAG_K) || flag(FLAG_B) && flag(FLAG_K)", "random(10) == 0 || random(10) == 0", "checkitem(ITEM_A) && flag(FLAG_A)", "getpricereduction(POKENEWS_LILYCOVE) == 1", "both(VAR_TEMP_1, 2) >= 50", "flag(FLAG_A) || checkmonobedience(VAR_0x8004)", "var(VAR_A) == 0x8004", "var(VAR_B) >= 16500 || var(VAR_A) < 0x4000", "flag(FLAG_A) && var(VAR_A) != 32770"])
             wrap = r.choice(["{cmd}", "if ({cond}) {{ {cmd} }}", "while ({cond}) {{ {cmd} }}", "do {{ {cmd} }} while ({cond})",
                              "switch (var(VAR_A)) {{ case 1: case K_ONE + 1: {cmd} default: x case 0x3: }}", "X%d_L(global): {cmd} goto(X%d_L)" % (k, k)])
             b = wrap.format(cmd=cmd, cond=cond)
@@ -107,7 +107,7 @@ def mix_cfg(r):
                  "1_latin_rse": {"maxLineLength": 208, "numLines": 2, "cursorOverlapWidth": 10, "widths": {"default": 6, " ": 3, "a": 6, "b": 6}},
                  "1_latin_frlg": {"maxLineLength": 0, "numLines": 0, "cursorOverlapWidth": 0, "widths": {"default": 8, "{PLAYER}": 0, "$": 0}}}
         c = base_cfg(fontdefault=r.choice(["F1", "F1", "F2", ""]), fonts=fonts, deffont=r.choice(["", "", "F2"]), maxlen=r.choice([0, 0, 70]), **kw)
-    c.autovars = dict(AUTOVARS, getpricereduction=("VAR_RESULT", None), checkmonobedience=("VAR_RESULT", None))
+    c.autovars = dict(AUTOVARS, getpricereduction=("VAR_RESULT", None), checkmonobedience=("VAR_RESULT", None), both=("VAR_RESULT", 0))
     if r.random() < 0.2: c.autovars["special"] = ("VAR_SPECIAL", None)
     if r.random() < 0.1: c.autovars["specialvar"] = ("", r.choice([0, 1, 5, -1]))
     return c
@@ -251,7 +251,8 @@ def boundary_program(r, k):
     elif shape == "nested":
         # deep nesting of one or two constructs
         d = r.choice([5, 9, 17, 33]); inner = "core"
-        kinds = r.sample(["if", "while", "do", "switch", "paren", "pory", "else"], r.choice([1, 2]))
+        kinds = r.sample(["if", "while", "do", "switch", "paren", "pory", "else", "dswitch", "dswitch"], r.choice([1, 2]))
+        if "dswitch" in kinds: out.append("movement %s_mv { walk_up * 2 }" % p)
         for i in range(d):
             k = kinds[i % len(kinds)]
             if k == "if": inner = "if (flag(FLAG_%d)) { a%d %s b%d }" % (i, i, inner, i)
@@ -259,6 +260,7 @@ def boundary_program(r, k):
             elif k == "while": inner = "while (var(VAR_A) < %d) { %s if (flag(FLAG_Q)) { %s } }" % (i, inner, r.choice(["continue", "break"]))
             elif k == "do": inner = "do { %s } while (flag(FLAG_%d))" % (inner, i)
             elif k == "switch": inner = "switch (var(VAR_%d)) { case 1: %s break default: d%d if (flag(FLAG_Q)) { break } e%d }" % (i, inner, i, i)
+            elif k == "dswitch": inner = "switch (var(VAR_%d)) { case 1: d%d default: %s }" % (i, i, inner)
             elif k == "pory": inner = "poryswitch(V) { A { %s } _ { %s } }" % (inner, inner if i < 3 else "z")
             else: inner = "if (%sflag(FLAG_A) && var(VAR_B) == %d%s || flag(FLAG_C)) { %s }" % ("(" * (i + 1), i, ")" * (i + 1), inner)
         out.append("script %s { lock %s release }" % (p, inner))
